@@ -108,14 +108,18 @@ def get_contour(mask):
         #                             cv2.RETR_EXTERNAL,
         #                             cv2.CHAIN_APPROX_NONE)
         # c2 = conts[0].reshape(-1, 2)
-        conts = find_contours(mi.transpose(),
+        # Pad the mask with one pixel of background: marching squares
+        # leaves contours open where they intersect the array edge, so
+        # the border of a mask that touches the image border would
+        # otherwise not be traced.
+        conts = find_contours(np.pad(mi, 1).transpose(),
                               level=.9999,
                               positive_orientation="low",
                               fully_connected="high")
         # get the longest contour
         c0 = sorted(conts, key=lambda x: len(x))[-1]
-        # round all coordinates to pixel values
-        c1 = np.asarray(np.round(c0), int)
+        # round all coordinates to pixel values (and undo the padding)
+        c1 = np.asarray(np.round(c0), int) - 1
         # remove duplicates
         c2 = remove_duplicates(c1)
         if len(c2) == 0:
